@@ -348,7 +348,7 @@ def main(ctx, t0):
     acc = core.run_units([u for u in units(ctx) if u[0] != "e2"], run_unit, ctx)
     core.deterministic_ids(0)
     searches = [(k, c, "reduced") for k in spaces.KINDS for c in (("default", "limit") if ctx.thorough else ("default",))]
-    stats, a2 = e2.explore(searches, 3 if ctx.thorough else 2, ctx, chunk=16)
+    stats, a2 = e2.explore(searches, 3 if ctx.thorough else 2, ctx, chunk=16, invs=("I4",))
     n_i4 = 0
     for v in a2.violations:
         if v["case"]["inv"] == "I4":
@@ -368,3 +368,13 @@ def main(ctx, t0):
              "fault_grammar_sizes": {f"{op}/{sn}": sum(1 for _ in faults("PL", op, sh)) for op in OPS for sn, sh in SHAPES.items()}}
     acc.evals += extra["e2_rejected_call_transitions"]
     return core.finish(PID, ctx, LEVEL, acc, RULE, extra, ASSUMPTIONS, t0)
+
+
+def replay_unit(unit, ctx):
+    if unit and isinstance(unit[0], (list, tuple)):  # an E2 expansion unit
+        core.deterministic_ids(0)
+        acc = e2._expand(unit, ctx)
+        for v in acc.violations:
+            v["key"] = "E2:" + v["key"]
+        return acc
+    return run_unit(unit, ctx)
